@@ -50,6 +50,33 @@ PROPS["C19"] = {
     "technique": "deterministic simulation: seeded baton scheduler over the real worker pool and pipeline; exactly-once / error-propagation ledger; bounded completion in simulated time",
 }
 
+PROPS["C01"] = {
+    "harness": "kvs", "level": "fault_enumeration", "per_proc": 12, "proc_timeout": 900,
+    "quick": {"runs": 480, "budget_s": 300},
+    "thorough": {"runs": 6000, "budget_s": 1700, "shrink_runs": 300},
+    "rule": "Each generated history (1-2 families; 4-12 operations out of flush [1-6 keys, Add and StreamWriter mixed, value padding 0..3000 bytes so the 4 KiB writer buffer flushes mid-table, optional per-leader sequence, sequence-only flush], Family.Compact, background compaction tick, rollup bookkeeping against a second store, clean close+reopen) is first run without faults (reference-model equality after every operation). Then it is re-executed once per file-system seam operation k=1..N of that fault-free run (quick tier: at most 60 evenly spread points with a per-history random offset; thorough: all N) with the process killed right before operation k; the store is reopened by a fresh incarnation and judged; thorough chains up to two more deaths a few operations later (inside recovery). evaluations = executions (fault-free + crashing). Seam operations: create/write/sync/flush/close of manifest and table writers, write-file and rename of CURRENT, OPTIONS rewrite, mkdir, remove, map/unmap.",
+    "fault_kinds": ["crash@write", "crash@sync", "crash@create", "crash@close", "crash@rename", "crash@writefile", "crash@writetoml", "crash@remove", "crash@mkdir", "close-reopen"],
+    "real": ["kv (store, store manager, family, flusher, compact job, rollup bookkeeping)", "kv/version (version set, manifest, edit logs, recovery)", "kv/table (builder, mmap reader, cache)", "pkg/bufioutil"],
+    "stub": ["merger: a harness merger registered with kv.RegisterMerger (token-set union) so content is invariant under compaction"],
+    "assumptions": COMMON_ASSUME + ["compile-time knob in the overlay only: pkg/bufioutil.defaultWriteBufferSize=4096 (shipped 256 KiB) so tables reach the file in several writes", "the store file lock is a no-op under simulation (a dead incarnation cannot keep it)"],
+    "design_ref": "5/C01",
+    "level_text": "Per explored history every process-death point between two file-system operations is enumerated (thorough) or evenly sampled (quick); the histories themselves are sampled by seed. Recovery is judged against a set-valued reference model (committed, or committed + the single operation in flight).",
+    "technique": "deterministic simulation: fault enumeration of process-death points over seeded histories; reference-model oracle on the recovered store",
+}
+PROPS["C02"] = {
+    "harness": "kvs", "level": "exploration", "per_proc": 100,
+    "quick": {"runs": 12000, "budget_s": 300},
+    "thorough": {"runs": 400000, "budget_s": 1700, "shrink_runs": 400},
+    "rule": "Each run: one family preloaded with 0-3 files; 1-2 flusher tasks (1-4 commits each), 1-3 reader tasks (take a snapshot, read everything through FindReaders+Get / Load / file iteration, hold it across yields or simulated sleeps up to 5 s, re-read, close) and a maintenance task (Family.Compact, background compaction tick incl. reader-cache cleanup, ForceRollup, clock jumps up to 4000 s past the cache TTL knob 10 ms / 1 s / 1 h), all under a seeded schedule; optionally every flushed file is registered for a rollup that never happens. Oracles: snapshot content stable and commit-atomic, visibility bounds by event order, delete/unmap seam monitor against files of held snapshots / unfinished writers / pending rollup files, reads with SetPanicOnFault.",
+    "fault_kinds": ["clock-jump"],
+    "real": ["kv (store, family, flusher, compaction job, obsolete-file deletion)", "kv/version (family version, version refcounts, snapshot)", "kv/table (reader cache, mmap readers)"],
+    "stub": ["merger: harness token-set union"],
+    "assumptions": COMMON_ASSUME,
+    "design_ref": "5/C02",
+    "level_text": "Seeded exploration of interleavings of readers, flush commits, compaction, obsolete-file cleanup and cache cleanup on the real kv code, with a file-liveness monitor at the delete/unmap seams and a snapshot-stability model.",
+    "technique": "deterministic simulation: seeded baton scheduler + clock jumps; snapshot-stability model and seam monitor",
+}
+
 NOT_APPLICABLE = {
     "C13": "pure arithmetic on (timestamp, interval): no schedule, clock, fault or crash point in the quantifier for a simulator to own; its code runs inside the C04/C07/C11 harnesses",
     "C14": "encode/decode are pure functions; pooled-object reuse is owned by the simulator only as a nondeterminism source of other harnesses, not as a fault of this property",
